@@ -93,7 +93,26 @@ func ruleR17(c *Ctx) *RuleResult {
 				continue
 			}
 			key := p.FuncKey(fn)
-			gc := c.GC(fn)
+			// an enumerable function may be written in terms of the iterator's NextTo or of a sibling (All = !Any(!f)):
+			// those bodies are expanded in place, so the rule still sees the loop that actually runs
+			gc := c.GCWith(fn, BuildOpts{Tag: "R17", Inline: func(callee *ssa.Function) bool {
+				recv := callee.Signature.Recv()
+				if recv == nil {
+					return false
+				}
+				switch rt := namedOf(recv.Type()); {
+				case rt == nil:
+					return false
+				case p.TypeKey(rt) == p.TypeKey(itType):
+					return callee.Name() == "NextTo"
+				case p.TypeKey(rt) == p.TypeKey(ct):
+					switch callee.Name() {
+					case "Each", "Any", "All", "Find":
+						return callee.Name() != name
+					}
+				}
+				return false
+			}})
 			if gc.Undecided != "" {
 				r.undecided(key, clause, p.FuncPos(fn), gc.Undecided)
 				continue
